@@ -143,6 +143,8 @@ def model_terms(job, res, mode):
     """(lhs, rhs, checker_lhs) Coq terms for one forced run"""
     opts = job.get("opts", {})
     more = 0 if job["target"] == "reusable-rg" else max(0, opts.get("max_repeats", 1) - 1)
+    if job["target"].startswith("preset:"):
+        more = 127      # AutoOptimizer's default max_repeats=128
     cfg = "(mkC %s %s %s %d %s)" % (MODES[mode], OWS[opts.get("overwrite", False)],
                                     coq(bool(opts.get("cache_only", False))), more, coq(job.get("api") == "path"))
     rs = ranks([r[3] for r in res["scores"]])
@@ -231,6 +233,13 @@ def forced_jobs(ctx, rng):
         for progs in ([[0], [1]], [[0, 1], [1, 0]], [[3, 0], [1, 3, 2]]):
             for o in rng.sample(orders6, ctx.n(12, 300)):
                 add(target, opts, small, progs, [[t, "shared"] for t in o], "auto", api=rng.choice(("tree", "tree", "path")))
+    # the string presets themselves: 'auto' / 'auto-hq' -> the module instance auto_optimize (default cutoff 250:
+    # the 13/14-tensor queries take the hyper-optimizer branch, the small ones the optimal one)
+    bigpool = distinct_pool(rng, [5, 13, 4, 14])
+    for preset in ("preset:auto", "preset:auto-hq"):
+        for progs in ([[1], [3]], [[1, 0], [3, 1]], [[0, 3, 1], [1, 2]]):
+            for o in rng.sample(orders6, ctx.n(3, 40)):
+                add(preset, {}, bigpool, progs, [[t, "shared"] for t in o], "preset-auto")
     # (b) random programs, 2-3 threads, micro-step schedules
     for _ in range(ctx.n(160, 2500)):
         target, opts = rng.choice(reusable_cfgs + auto_cfgs)
